@@ -142,6 +142,7 @@ def leaf_factories(rng, d):
     fs.append(('Range', lambda: S.RangeSubsetState(*lohi(), att=att())))
     fs.append(('MultiRange', lambda: S.MultiRangeSubsetState([lohi() for _ in range(r.randint(0, 3))], att())))
     fs.append(('Roi', lambda: S.RoiSubsetState(att(), att(), roi2d())))
+    fs.append(('RoiNd', lambda: S.RoiSubsetStateNd([att(), att()], roi2d())))
     if d.ndim >= 2:
         fs.append(('RoiPixel', lambda: S.RoiSubsetState(px[-1], px[-2], roi2d())))       # pixel-space shortcut: broadcast result
     fs.append(('RoiPre', lambda: S.RoiSubsetState(att(), att(), roi2d(), pretransform=lambda a, b: (a + 0.25, b * 1.0))))
@@ -641,6 +642,8 @@ def process_cases(R, cases, cidx, stream):
             res = run_tree_case(R, W, spec, requests, cidx)
         except Mismatch as e:
             res = {'oracle': ['structure: %s' % e], 'line': None}
+        except Exception as e:
+            res = {'oracle': ['running the case raised %s: %s' % (err_name(e), e)], 'line': None}
         results.append(res)
         if res.get('line') is not None:
             lines.append(res['line'])
@@ -662,7 +665,8 @@ def process_cases(R, cases, cidx, stream):
             R.hist['operator'][o] += 1
         if res['oracle']:
             case = case_desc(W, spec, requests)
-            if stream == 'random':
+            if stream == 'random' and R.hist['shrunk']['cases'] < 3:
+                R.hist['shrunk']['cases'] += 1
                 try:
                     s2, r2 = shrink(R, W, spec, requests, cidx, lambda r: bool(r.get('oracle')))
                     clear_all_caches()
@@ -757,7 +761,7 @@ def stream_exhaustive(R, cidx):
     specs = list(depth1)
     # depth 2: operators over depth-1 trees restricted to two leaves, every operator at the root
     d1small = enum_specs([0, 2], 1, 2)
-    limit = R.pick(700, 6000)
+    limit = R.pick(1500, 6000)
     rng = case_rng(0, 'exhaustive-sample')
     d2 = []
     for a in d1small:
@@ -784,7 +788,7 @@ def stream_exhaustive(R, cidx):
 
 
 def stream_random(R, cidx):
-    n = R.pick(1100, 12000)
+    n = R.pick(1800, 14000)
     cases = []
     batch = 400
     done = 0
@@ -808,7 +812,7 @@ def stream_random(R, cidx):
     R.sample({'random tree case': {'parts': ['Inequality', 'Roi', 'Category'], 'spec': ['and', ['leaf', 0], ['multi', [['leaf', 1], ['not', ['leaf', 2]]]]],
                                    'requests': 'root via Data.get_mask, sub-state via to_mask(data, view), part 1, root again'}})
     R.stream('random', cases=done, exhaustive=False,
-             bound='datasets of 1-3 dims (2..5 per axis), 1-6 parts from 22 kinds of elementary states, trees to depth 5, n-ary or with 1-6 children, 2-10 requests over 5-7 views')
+             bound='datasets of 1-3 dims (2..5 per axis), 1-6 parts from 23 kinds of elementary states, trees to depth 5, n-ary or with 1-6 children, 2-10 requests over 5-7 views')
 
 
 # ---- edit modes on real subset groups
@@ -983,7 +987,7 @@ def run_edit_case(R, seed, i, cidx, explicit=None):
 
 
 def stream_edit(R, cidx):
-    n = R.pick(500, 5000)
+    n = R.pick(700, 6000)
     items = []
     for i in range(n):
         clear_all_caches()
@@ -991,6 +995,8 @@ def stream_edit(R, cidx):
             res, W, desc = run_edit_case(R, R.seed, i, cidx)
         except Mismatch as e:
             res, W, desc = {'oracle': ['structure: %s' % e], 'line': None}, None, {'stream': 'edit', 'seed': R.seed, 'i': i}
+        except Exception as e:
+            res, W, desc = {'oracle': ['running the case raised %s: %s' % (err_name(e), e)], 'line': None}, None, {'stream': 'edit', 'seed': R.seed, 'i': i}
         items.append((res, W, desc))
     lines = [r['line'] for r, _, _ in items if r.get('line')]
     outs = iter(R.model(lines)) if (lines and R.model_available) else iter([])
@@ -1035,7 +1041,7 @@ def compare_edit(res, out):
 
 
 def stream_copy(R, cidx):
-    n = R.pick(300, 3000)
+    n = R.pick(400, 4000)
     lines, metas = [], []
     for i in range(n):
         W = new_world(R.seed, 'copy', i)
@@ -1051,11 +1057,15 @@ def stream_copy(R, cidx):
         except Exception:
             continue
         snaps = [snap(s) for s in W.leaves]
-        root = build(spec, W.leaves)
-        ids = Ids()
-        w = wire(spec, root, ids, cidx)
-        before = root.to_mask(d).copy() if rng.random() < 0.5 else None
-        snap_root = snap(root)
+        try:
+            root = build(spec, W.leaves)
+            ids = Ids()
+            w = wire(spec, root, ids, cidx)
+            before = root.to_mask(d).copy() if rng.random() < 0.5 else None
+            snap_root = snap(root)
+        except Exception as e:
+            R.fail('oracle', desc, 'building / evaluating the selection raised %s: %s' % (err_name(e), e))
+            continue
         try:
             cp = root.copy()
             got = cp.to_mask(d)
@@ -1152,7 +1162,10 @@ def replay(R, case):
             W = new_world(case['seed'], st, case['i'])
         spec = spec_from_json(case['spec'])
         reqs = [(tuple(t), vi, form, via) for t, vi, form, via in case['requests']]
-        res = run_tree_case(R, W, spec, reqs, cidx)
+        try:
+            res = run_tree_case(R, W, spec, reqs, cidx)
+        except Exception as e:
+            res = {'oracle': ['running the case raised %s: %s' % (err_name(e), e)]}
         out['oracle'] = res['oracle']
         out['implementation'] = res.get('impl')
         if res.get('line') and R.model_available:
@@ -1160,7 +1173,10 @@ def replay(R, case):
             out['correspondence'] = compare_model(res, m)
         out['violates'] = bool(res['oracle'])
     elif st == 'edit':
-        res, W, desc = run_edit_case(R, case['seed'], case['i'], cidx, explicit=case)
+        try:
+            res, W, desc = run_edit_case(R, case['seed'], case['i'], cidx, explicit=case if 'ops' in case else None)
+        except Exception as e:
+            res = {'oracle': ['running the case raised %s: %s' % (err_name(e), e)]}
         out['oracle'] = res['oracle']
         if res.get('line') and R.model_available:
             out['correspondence'] = compare_edit(res, R.model([res['line']])[0])
